@@ -309,6 +309,7 @@ def run(rep, tier, seed):
                     rep.violation("C02:double-literal-changed", "floating literal %r converted to %s, nearest double is %s" % (
                         text, r["dump"], G.c_hex(want)), single)
             rep.observe("dbl:" + text)
+    binding_pass(rep, rng, quick)
     rep.rule = ("abstract trees (all depth-2 (parent, position, child) operator triples, all same-level associativity "
                 "chains, random trees up to depth 6, expression lists/guards/invariants inside whole models, literal edge "
                 "values) rendered with minimal and full parentheses from a reference operator table; non-trivial = "
@@ -317,6 +318,183 @@ def run(rep, tier, seed):
     rep.extra["items"] = {"expression_texts": len(items), "model_contexts": len(mcases), "literals": len(lit_items)}
     rep.assumptions += ["reference operator table in vp/gen_expr.py (written from the C02 statement)",
                         "CPython float() is correctly rounded"]
+
+POOL = ["x", "y", "z"]
+
+
+class _Scopes:
+    """Generator of nested scopes that declare names from a small pool again and again, with uses of a name directly
+    after its declaration and later; every use is predicted by the scope rule (innermost enclosing declaration that
+    precedes the use) in the labels of the document dump."""
+
+    def __init__(self, rng, prefix):
+        self.rng, self.prefix, self.counter, self.uses = rng, prefix, 0, []
+
+    def use(self, env):
+        r = self.rng
+        a, b = r.choice(POOL + ["r"]), r.choice(POOL + ["r"])
+        if "/it" in env[a]:
+            a = "r"             # iteration binders cannot be assigned to
+        self.uses.append("(ASSIGN (IDENTIFIER %s@%s) (IDENTIFIER %s@%s))" % (a, env[a], b, env[b]))
+        return "%s = %s;" % (a, b)
+
+    def use_of(self, n, env):
+        r = self.rng
+        if r.random() < 0.5:
+            self.uses.append("(ASSIGN (IDENTIFIER %s@%s) (CONSTANT i 7))" % (n, env[n]))
+            return "%s = 7;" % n
+        self.uses.append("(ASSIGN (IDENTIFIER r@%s) (IDENTIFIER %s@%s))" % (env["r"], n, env[n]))
+        return "r = %s;" % n
+
+    def block(self, env, depth, taken=()):
+        """text of the statements of one block (without braces); the caller has assigned the block's label"""
+        r = self.rng
+        label = "%s/b%d" % (self.prefix, self.counter)
+        self.counter += 1
+        env = dict(env)
+        declared = set(taken)
+        out = []
+        # declarations come first in a block (the grammar wants it so); the statement that follows the last one is
+        # usually a use of a name just declared
+        last = None
+        for _ in range(r.choice([0, 1, 1, 2, 3])):
+            free = [n for n in POOL if n not in declared]
+            if not free:
+                break
+            n = r.choice(free)
+            declared.add(n)
+            env[n] = label
+            out.append("int %s = %d;" % (n, r.randint(0, 9)))
+            last = n
+        if last is not None and r.random() < 0.75:
+            out.append(self.use_of(last, env))
+        for _ in range(r.randint(1, 4)):
+            x = r.random()
+            if x < 0.55 or depth <= 0:
+                out.append(self.use(env))
+            elif x < 0.8:
+                out.append("{ %s }" % self.block(env, depth - 1))
+            elif x < 0.9:
+                out.append("if (r > 0) { %s }" % self.block(env, depth - 1))
+            else:
+                k = r.choice(POOL + ["k"])
+                env2 = dict(env)
+                env2[k] = "%s/it%d" % (self.prefix, self.counter)
+                self.counter += 1
+                out.append("for (%s : int[0,1]) { %s }" % (k, self.block(env2, depth - 1)))
+        return " ".join(out)
+
+
+def binding_models(rng, n):
+    """(xml, expected) pairs: expected = {"gf": [...], "lf": [...], "edges": [(guard, assign), ...]}"""
+    out = []
+    for _ in range(n):
+        r = rng
+        genv = {k: "global" for k in POOL + ["r"]}
+        # global function, parameters from the pool
+        gp = [k for k in POOL if r.random() < 0.25]
+        sc = _Scopes(r, "F:gf")
+        env = dict(genv)
+        for k in gp:
+            env[k] = "F:gf/b0"
+        gbody = sc.block(env, 3, taken=gp)
+        gf = "void gf(%s) { %s }" % (", ".join("int %s" % k for k in gp), gbody)
+        # template: parameters and locals from the pool, a local function, edges with select binders
+        tp = [k for k in POOL if r.random() < 0.3]
+        tl = [k for k in POOL if k not in tp and r.random() < 0.4]
+        tenv = dict(genv)
+        for k in tp:
+            tenv[k] = "T:P.param"
+        for k in tl:
+            tenv[k] = "T:P.local"
+        sl = _Scopes(r, "T:P.F:lf")
+        lp = [k for k in POOL if r.random() < 0.2]
+        env = dict(tenv)
+        for k in lp:
+            env[k] = "T:P.F:lf/b0"
+        lbody = sl.block(env, 3, taken=lp)
+        lf = "void lf(%s) { %s }" % (", ".join("int %s" % k for k in lp), lbody)
+        edges, eexp = [], []
+        for nr in range(r.randint(1, 3)):
+            eenv = dict(tenv)
+            sel = [k for k in POOL if r.random() < 0.35]
+            for k in sel:
+                eenv[k] = "T:P.select/%d" % nr
+            labels = []
+            if sel:
+                labels.append(("select", ", ".join("%s : int[0,3]" % k for k in sel)))
+            g = r.choice(sel) if sel and r.random() < 0.7 else r.choice(POOL)       # often the binder just declared
+            a, b = r.choice(POOL + ["r"]), r.choice(POOL + ["r"])
+            if a in sel:
+                a = "r"         # select binders are constants
+            labels.append(("guard", "%s > 1" % g))
+            labels.append(("assignment", "%s = %s" % (a, b)))
+            if r.random() < 0.3:
+                labels[-2:] = [labels[-1], labels[-2]]     # (the select label stays first: labels are read in document order)
+            edges.append(("id0", "id0", labels))
+            eexp.append(("(GT (IDENTIFIER %s@%s) (CONSTANT i 1))" % (g, eenv[g]),
+                         "(ASSIGN (IDENTIFIER %s@%s) (IDENTIFIER %s@%s))" % (a, eenv[a], b, eenv[b])))
+        xml = xmlgen.simple_model(decl="int x; int y; int z; int r;\n" + gf, tdecl=" ".join("int %s;" % k for k in tl) + "\n" + lf,
+                                  params=", ".join("int &%s" % k for k in tp), locations=[("id0", "A", [], None)], edges=edges,
+                                  system="P1 = P(%s); system P1;" % ", ".join("r" for _ in tp))
+        out.append((xml, {"gf": sc.uses, "lf": sl.uses, "edges": eexp}))
+    return out
+
+
+def binding_pass(rep, rng, quick):
+    """identifier binding under shadowing: names declared again in parameter lists, function bodies, nested blocks,
+    iteration binders, template parameters/locals and select binders, used directly after the declaration and later"""
+    import re
+    ms = binding_models(rng, 1500 if quick else 15000)
+    cases = [Case("b%d" % i, [Step("parse_doc", 0, "xml_buffer", 1, 1, xml)], timeout=60) for i, (xml, _) in enumerate(ms)]
+    res = run_cases(cases)
+    n_uses = 0
+    for (xml, exp), c in zip(ms, cases):
+        r = res[c.id]
+        if r["status"] != "ok":
+            rep.crash(r, c)
+            rep.observe(None)
+            continue
+        s = r["steps"][0]
+        if s.get("exc") or s["errors"]:
+            rep.violation("C02:binding:valid-model-rejected", "%s %s" % (s.get("exc"), [e["msg"] for e in s["errors"]][:2]), c)
+            rep.observe(None)
+            continue
+        d = s["doc"]
+        got = {"gf": None, "lf": None}
+        for f in d["globals"]["funcs"]:
+            if f["name"] == "gf":
+                got["gf"] = re.findall(r"\(expr (\(ASSIGN \(IDENTIFIER [^)]*\) \((?:IDENTIFIER|CONSTANT i) [^)]*\)\))\)", f["body"])
+        t = d["templates"][0]
+        for f in t["decl"]["funcs"]:
+            if f["name"] == "lf":
+                got["lf"] = re.findall(r"\(expr (\(ASSIGN \(IDENTIFIER [^)]*\) \((?:IDENTIFIER|CONSTANT i) [^)]*\)\))\)", f["body"])
+        bad = None
+        for fn in ("gf", "lf"):
+            if got[fn] is None or len(got[fn]) != len(exp[fn]):
+                bad = ("%s:statement-count" % fn, "%r vs %r" % (got[fn], exp[fn]))
+                break
+            for k, (g, w) in enumerate(zip(got[fn], exp[fn])):
+                n_uses += 1
+                if g != w:
+                    bad = ("function-body", "statement %d of %s is %s, the scope rule prescribes %s" % (k, fn, g, w))
+                    break
+            if bad:
+                break
+        if not bad:
+            if len(t["edges"]) != len(exp["edges"]):
+                bad = ("edge-count", "")
+            for e, (wg, wa) in zip(t["edges"], exp["edges"]):
+                n_uses += 2
+                if e["guard"] != wg:
+                    bad = ("guard", "guard is %s, the scope rule prescribes %s" % (e["guard"], wg))
+                elif e["assign"] != wa:
+                    bad = ("update", "update is %s, the scope rule prescribes %s" % (e["assign"], wa))
+        if bad:
+            rep.violation("C02:binding-differs:%s" % bad[0], bad[1], c)
+        rep.observe(("bind", tuple(exp["gf"]), tuple(exp["lf"]), tuple(exp["edges"])))
+    rep.extra["binding_models"] = len(ms)
+    rep.extra["identifier_uses_compared_under_shadowing"] = n_uses
 
 
 def replay(data):
